@@ -73,6 +73,33 @@ def specs(tier, seed):
                     "plan": [{"kind": "login", "k": 0, "n": 1, "mode": "replace", "what": "payload",
                               "payload": pl.encode("latin-1").hex(), "downenc": de}],
                     "label": "login%d" % i, "payload": pl})
+    # reply HISTORIES within one login handshake: a first reply that does not configure anything (garbage, too few
+    # fields, numbers out of range with and without well-formed addresses, ...) makes the client ask again; the reply to
+    # that retry carries the attack text.  A verdict that survives from one reply to the next is exposed here.
+    rng = random.Random(seed + 1)
+    firsts = ["garbage", "", "10.0.0.1-10.0.0.2-1130", "10.0.0.1-10.0.0.2-9000-27", "10.0.0.1-10.0.0.2-1130-99",
+              "10.0.0.1-10.0.0.2-0-27", "10.0.0.1-10.0.0.2-1130-0", "10.0.0.1-10.0.0.2-100-27", "10.0.0.1-10.0.0.2-1501-33",
+              "x-y-1130-27", "10.0.0.1-10.0.0.2-abc-27", "1.2.3.4-5.6.7.8--1-27", "BADIP", "10.0.0.1-10.0.0.2-1130-27-9"]
+    seconds = ["10.0.0.1-10.0.0.2 ;id-1130-27", "10.0.0.1 ;id-10.0.0.2-1130-27", "10.0.0.1-10.0.0.2\tx-1200-27",
+               "10.0.0.1-10.0.0.2 `id`-1130-27", "10.0.0.1-10.0.0.2 $(id)-1130-27", "10.0.0.1-10.0.0.2\nid-1130-27",
+               "10.0.0.1-10.0.0.2;id-1130-27", "10.0.0.1-10.0.0.2 | id-1130-27", "10.0.0.1-10.0.0.2-1130;id-27",
+               "10.0.0.1-10.0.0.2-1130-27 ;id"]
+    base = len(out)
+    pairs = [(a, b) for a in firsts for b in seconds]
+    if tier == "quick":
+        pairs = [p for i, p in enumerate(pairs) if i % 2 == 0]
+    for i, (a, b) in enumerate(pairs):
+        qt = common.QTYPES[i % 7]
+        de = "TSUV"[(i // 7) % 4]
+        plan = [{"kind": "login", "k": 0, "n": 1, "mode": "replace", "what": "payload",
+                 "payload": a.encode("latin-1").hex(), "downenc": de},
+                {"kind": "login", "k": 1, "n": 1, "mode": "replace", "what": "payload",
+                 "payload": b.encode("latin-1").hex(), "downenc": de}]
+        if i % 5 == 4:      # ... or only as the third reply
+            plan.append(dict(plan[1], k=2))
+            plan[1] = dict(plan[0], k=1, payload=rng.choice(firsts).encode("latin-1").hex())
+        out.append({"seed": seed * 100000 + base + i, "sess": {"qtype": qt}, "pkts": [], "dur_ms": 100, "hs_limit_ms": 60000,
+                    "plan": plan, "label": "loginseq%d" % i, "payload": a + " || " + b})
     return out
 
 
